@@ -28,6 +28,9 @@ pub struct Profile {
     /// when set, the server network data block announces this channelCount and carries these bytes as its id array,
     /// whatever their number (every enclosing length stays consistent)
     pub net_raw: Option<(u16, Vec<u8>)>,
+    /// the flags word of the security header in front of the licensing PDU: SEC_LICENSE_PKT (0x0080), optionally with
+    /// SEC_LICENSE_ENCRYPT_CS (0x0200: "the client may encrypt its licensing packets") and SEC_FLAGSHI_VALID (0x8000)
+    pub license_sec_flags: u16,
     /// the dataPriority / segmentation octet of the server's send-data-indications: priority (top 0x00, high 0x40,
     /// medium 0x80, low 0xC0) | begin and end of an unsegmented message (0x30); Windows writes 0x70
     pub sdi_flags: u8,
@@ -120,6 +123,7 @@ impl Default for Profile {
             selected_protocol: 0,
             connect_pdu_len_style: 0,
             net_raw: None,
+            license_sec_flags: 0x0080,
             sdi_flags: 0x70,
             stream_id: 1,
             cc_flags: 0,
@@ -328,6 +332,10 @@ pub fn disconnect_ultimatum(reason: u8) -> B {
 // ------------------------------------------------------------------------------------------ security / licence
 
 pub fn license_pdu(l: &License) -> B {
+    license_pdu_with(l, 0x0080)
+}
+
+pub fn license_pdu_with(l: &License, sec_flags: u16) -> B {
     let mut body = B::new();
     let (msg_type, flags) = match l {
         License::ValidClient { flags, blob_type, blob } => {
@@ -340,7 +348,7 @@ pub fn license_pdu(l: &License) -> B {
         }
     };
     let mut b = B::new();
-    b.u16le("sec.flags", 0x0080).u16le("sec.flagsHi", 0);
+    b.u16le("sec.flags", sec_flags).u16le("sec.flagsHi", 0);
     b.u8("lic.bMsgType", msg_type).u8("lic.flags", flags).u16le("lic.wMsgSize", (body.len() + 4) as u16);
     b.nest("l", &body);
     b
